@@ -19,6 +19,9 @@ KeyValuePairs = Union[Dict[Any, Any], Sequence[Tuple[Any, Any]]]
 def _iterate_dict_like(iterable: KeyValuePairs) -> List[Tuple[Any, Any]]:
     if isinstance(iterable, dict):
         return list(iterable.items())
+    if hasattr(iterable, "keys"):
+        # any other mapping, as accepted by dict.update()
+        return [(key, iterable[key]) for key in iterable.keys()]  # type: ignore
     return list(iterable)
 
 
@@ -156,9 +159,9 @@ class DictProxy(dict):
 
         return (validated_key, validated_value)
 
-    def setdefault(self, key: Any, value: Any) -> None:
+    def setdefault(self, key: Any, value: Any = None) -> Any:  # type: ignore[override]
         key, value = self._validate(key, value)
-        super().setdefault(key, value)
+        return super().setdefault(key, value)
 
     def __eq__(self, other: Any) -> bool:
         if other is None or not isinstance(other, dict):
